@@ -152,11 +152,24 @@ Theorem C10_quote_heap_roundtrip : forall (bname : N -> text) d h s, heap_datum 
 Proof. exact put_get_roundtrip. Qed.
 Print Assumptions C10_quote_heap_roundtrip.
 
+(* ... and the compiler (compile.rs): (quote d) is compiled by storing d with
+   Heap::maybe_put_cell and emitting MOV_IMMEDIATE <value> %acc; the operand reads d back
+   ([reads]: get_as_cell gives d on the resulting heap AND on every later extension of it,
+   i.e. after whatever the rest of the compilation and the run allocate) *)
+From MW Require Import Model.VmBase Model.Compile.
+Theorem C10_compile_quote : forall (bname : N -> text) f l tail d (s : vm), heap_datum d -> heap_inv (hp s) ->
+  exists v s', compile_expression (S f) l tail (quote_of d) s
+                 = ROk (emit (emit (emit_op l OMovImmediate) v) VAcc) s' /\
+    heap_inv (hp s') /\ reads bname v d (hp s') (st s').
+Proof. exact compile_quote_reads. Qed.
+Print Assumptions C10_compile_quote.
+
 (* OPEN (not proved; checked in-kernel on the examples below and on every case of wire
    interface 8 by the correspondence check): evaluating (quote d) on the machine booted
-   with the prelude returns d.  The proved part is the heap round trip above; what is
-   missing is the trip through transform/compile/run (MOV_IMMEDIATE of the stored
-   pointer, HALT), which needs the VM invariants of C01. *)
+   with the prelude returns d.  Proved: the heap round trip and the compilation of the
+   quote form above; missing: transform_expr leaves (quote d) alone on the booted
+   machine, the run of ENTER / MOV_IMMEDIATE / RET / HALT, the heap invariant of the
+   booted machine and the final result conversion (the VM invariants of C01/C18). *)
 From MW Require Import Model.VmBase Model.Vm Model.Builtins Model.WireDatum.
 Definition C10_quote_eval_vm_stmt : Prop :=
   forall s0 d, booted = Some s0 -> heap_datum d ->
